@@ -169,7 +169,7 @@ func roundRobin(wrap bool) {
 	n := poolSize()
 	xs, pool := mkPool(n, mf)
 	r := &l4proxy.RoundRobinSelection{}
-	l4proxy.VerifSetRobin(r, robinStart(wrap))
+	vapi.SetU32(l4proxy.VerifRobinPtr(r), robinStart(wrap))
 	m := 0
 	for _, x := range xs {
 		if availRef(x, mf) {
